@@ -11,7 +11,7 @@ class C02(SessionCheck):
     RULE = ('lock-step histories over the real Session.run send branch (3 transports x 14 profiles): 1-6 queued requests incl. non-ASCII text, '
             'every _transport_write answered with a random short write (1..n), full write, 0, -1 or an exception, SSH readiness patterns; '
             'the bytes accepted by the transport are decoded by an independent RFC 4742/6242 decoder and compared with the submitted '
-            'messages; frame/writeLoop of the model compared with the code on random payloads. Non-trivial = history >= 8 commands.')
+            'messages; frame/writeLoop of the model compared with the code on random payloads; a real socket whose peer stops reading in the middle of a 6 MB message (the session must fail). Non-trivial = history >= 8 commands.')
 
     def cases(self, rng, tier):
         out = SessionCheck.cases(self, rng, tier)
@@ -20,9 +20,47 @@ class C02(SessionCheck):
             data = bytes(rng.randrange(256) for _ in range(n))
             script = [rng.choice([1, 2, 3, 7, n or 1, 0, -1, 5000]) for _ in range(rng.randint(0, 8))]
             out.append({'kind': 'write', 'data': data.hex(), 'script': script, 'base11': rng.random() < 0.5})
+        # real sockets: the peer stays connected but stops reading while a message larger than the socket buffers is being written -
+        # the transport can accept no more bytes; the session must FAIL (error to the pending request, disconnected), not sit there
+        for tr in (['unix', 'tls'] if tier == 'thorough' else ['unix']):
+            out.append({'kind': 'stall', 'transport': tr, 'size': 6 * 1024 * 1024, 'timeout': 1.5})
         return out
 
+    def run_stall(self, case):
+        import time
+        from impl import e2e
+        from ncclient.xml_ import new_ele
+        sc = {'transport': case['transport'], 'profile': 'default'}
+        srv = e2e.make_server(sc, None)
+        try:
+            m = e2e.connect(srv, sc, timeout=case['timeout'])
+            srv.stop_reading.set()
+            time.sleep(0.05)
+            m.async_mode = True
+            big = new_ele('big')
+            big.text = 'x' * case['size']
+            t0 = time.time()
+            r = m.dispatch(big)
+            small = m.dispatch(new_ele('after'))
+            deadline = t0 + case['timeout'] + 6
+            while time.time() < deadline and (m.connected or not r.event.is_set()):
+                time.sleep(0.02)
+            res = {'connected': m.connected, 'failed': r.event.is_set() and r.error is not None, 'error': type(r.error).__name__ if r.error is not None else None,
+                   'second_failed': small.event.is_set() and small.error is not None, 'dt': time.time() - t0, 'worker_alive': m._session.is_alive()}
+            srv.stop_reading.clear()
+            try:
+                m._session.close()
+            except Exception:
+                pass
+            return res
+        except Exception as e:
+            return {'harness_error': type(e).__name__ + ': ' + str(e)[:100]}
+        finally:
+            srv.cleanup()
+
     def run_impl(self, case):
+        if case.get('kind') == 'stall':
+            return self.run_stall(case)
         if case.get('kind') == 'write':
             # the real send branch of Session.run on a stub: one queued message, scripted write results
             import io as _io
@@ -82,6 +120,8 @@ class C02(SessionCheck):
         return SessionCheck.run_impl(self, case)
 
     def model_lines(self, case):
+        if case.get('kind') == 'stall':
+            return []
         if case.get('kind') == 'write':
             from oracle.framing_spec import enc10
             payload = bytes.fromhex(case['data']).decode('latin-1').encode('utf-8')
@@ -91,12 +131,16 @@ class C02(SessionCheck):
         return SessionCheck.model_lines(self, case)
 
     def model_obs(self, case, outs):
+        if case.get('kind') == 'stall':
+            return None
         if case.get('kind') == 'write':
             w, st = outs[1].split(' ')
             return {'wire': w[1:], 'status': st, 'frame': outs[0][1:]}
         return SessionCheck.model_obs(self, case, outs)
 
     def compare(self, case, io, mo):
+        if case.get('kind') == 'stall':
+            return None
         if case.get('kind') == 'write':
             if mo is None:
                 return None
@@ -106,11 +150,22 @@ class C02(SessionCheck):
         return SessionCheck.compare(self, case, io, mo)
 
     def nontrivial(self, case, io):
+        if case.get('kind') == 'stall':
+            return True
         if case.get('kind') == 'write':
             return len(case['script']) >= 2
         return SessionCheck.nontrivial(self, case, io)
 
     def oracle(self, case, io):
+        if case.get('kind') == 'stall':
+            if 'harness_error' in io:
+                return ('C02:harness', io['harness_error'])
+            if io['connected'] or not io['failed'] or not io['second_failed']:
+                return ('C02:stalled-peer-no-error@' + case['transport'], 'the peer stopped reading in the middle of a %d-octet message (connect timeout %.1f s): after %.1f s the '
+                        'session is %s, the request being written %s, the request queued behind it %s' % (
+                            case['size'], case['timeout'], io['dt'], 'still connected' if io['connected'] else 'disconnected',
+                            'failed with ' + str(io['error']) if io['failed'] else 'got no error', 'failed' if io['second_failed'] else 'got no error'))
+            return None
         if case.get('kind') == 'write':
             payload = bytes.fromhex(case['data']).decode('latin-1').encode('utf-8')
             fr = (b'\n#%d\n' % len(payload) + payload + b'\n##\n') if case['base11'] else payload + DELIM10
